@@ -206,3 +206,54 @@ Proof.
   split; [vm_compute; reflexivity|]. split; [vm_compute; reflexivity|].
   split; [vm_compute; reflexivity|]. vm_compute. repeat split.
 Qed.
+
+(* ================================================================== c05_zero_window_ok without the guard
+   post_open is FALSE of the model: a poll whose receive loop stops early on a closed connection (here
+   LastAck with wait_for_last_ack = false) may send before it has processed every queued message; the
+   restart after an EMSGSIZE on the MTU probe runs the receive loop again, and the window the poll
+   leaves behind is not the one its ST_DATA went into.
+   Scenario: 3000 bytes are written and segmented (528 bytes, probe of 991) but the transport is blocked;
+   the peer's FIN and an old ST_DATA advertising a ZERO window are queued, the path limit is set to 600;
+   the next poll takes the FIN (LastAck: closed), sends segment 101 (528 bytes), gets EMSGSIZE on the
+   probe, restarts, processes the second message (window := 0), and ends Pending on a blocked ACK. *)
+Definition closed_cfg : vconfig :=
+  {| vc_incoming := false; vc_ipv4 := true; vc_link_mtu := 1500; vc_rx_buf := 1048576;
+     vc_tx_init := 32768; vc_tx_max := 1048576; vc_nagle := false; vc_max_retx := 5;
+     vc_inactivity := 10000000000; vc_wait_last_ack := false; vc_mtu_probe_max_retx := 1;
+     vc_isn := 100; vc_remote_seq := 1; vc_remote_conn_id := 7; vc_remote_wnd := 1048576;
+     vc_remote_ts := 5; vc_syn_sent := 0; vc_now0 := 1000000 |}.
+
+Definition zero_wnd_data : msg :=
+  {| m_hdr := {| ch_type := ST_DATA; ch_conn_id := 0; ch_ts := 10; ch_ts_diff := 0; ch_wnd := 0;
+                 ch_seq := 1; ch_ack := 100; ch_sack := None; ch_close_reason := None |};
+     m_payload := [0] |}.
+
+Definition closed_ops : list vop :=
+  [VoWrite (repeat 0 (Z.to_nat 3000)); VoPoll [TPending];
+   VoDeliver (wmsg ST_FIN 1 100 0); VoDeliver zero_wnd_data; VoSetLimit (Some 600);
+   VoPoll [TSent; TSent; TPending]].
+
+Lemma zero_window_ok_closed_refuted :
+  exists w cfg ops,
+    vconfig_ok cfg = true /\ Forall op_msg_ok ops /\
+    forallb (c05_zero_window_ok cfg) (wtrace w cfg ops) = false /\
+    (* the failing poll ends with the connection closed; the guarded clause holds *)
+    forallb (c05_zero_window_ok_open cfg) (wtrace w cfg ops) = true /\
+    forallb (fun st => c05_zero_window_ok cfg st || negb (post_open cfg st)) (wtrace w cfg ops) = true /\
+    match rev (wtrace w cfg ops) with
+    | st :: _ => f_last_remote_window (fs_post st) = 0 /\ f_rto_retx (fs_post st) = 0 /\
+                 f_state (fs_post st) = LastAck 101 1 /\
+                 match fs_result st with
+                 | FrPoll PollPending pkts _ _ =>
+                     map (fun q => (ch_seq (fq_hdr q), fq_plen q)) (filter fq_is_data pkts) = [(101, 528)]
+                 | _ => False
+                 end
+    | [] => False
+    end.
+Proof.
+  exists 100000, closed_cfg, closed_ops.
+  split; [vm_compute; reflexivity|]. split.
+  { repeat constructor; cbv [op_msg_ok msg_ok wmsg zero_wnd_data m_hdr ch_type m_payload]; vm_compute; try discriminate; reflexivity. }
+  split; [vm_compute; reflexivity|]. split; [vm_compute; reflexivity|].
+  split; [vm_compute; reflexivity|]. vm_compute. repeat split.
+Qed.
